@@ -3,21 +3,21 @@ CONSTANTS
   C = 2
   MaxParts = 3
   Amts = {1, 3, 4, 5}
-  Tots = {3, 4, 5}
-  Secs = {"ok", "flip", "other"}
+  Tots = {4, 5}
+  Secs = {"ok"}
   Cls = {"far"}
   RegAmt = 4
   RegMin = 0
   BUF = 39
   MPPT = 1
   MaxTicks = 1
-  MaxBlocks = 0
-  MaxDev = 1
+  MaxBlocks = 1
+  MaxDev = 3
   MaxOps = 6
   StaleClaim = FALSE
   Flds = {"none"}
-  Sks = {"no"}
-  Ups = {FALSE}
+  Sks = {"no", "tlv", "s0", "s-1", "s=", "s+"}
+  Ups = {TRUE, FALSE}
   RegMeta = 0
   ClaimKinds = {"claim"}
   Bug = "none"
